@@ -8,10 +8,26 @@ type nodeHTML struct {
 	token     *Token
 	trimLeft  bool
 	trimRight bool
+
+	// Needed for the TrimBlocks/LStripBlocks options (issue #94) of the
+	// template this text belongs to
+	tpl            *Template
+	afterBlockTag  bool // the text directly follows a block tag's '%}'
+	beforeBlockTag bool // the text is directly followed by a block tag's '{%'
 }
 
 func (n *nodeHTML) Execute(ctx *ExecutionContext, writer TemplateWriter) *Error {
 	res := n.token.Val
+	if n.tpl != nil && n.tpl.Options != nil {
+		if n.tpl.Options.LStripBlocks && n.beforeBlockTag {
+			res = strings.TrimRight(res, "\t ")
+		}
+		// If an application configures pongo2 template to trim_blocks,
+		// the first newline after a template tag is removed automatically (like in PHP).
+		if n.tpl.Options.TrimBlocks && n.afterBlockTag && len(res) > 0 && res[0] == '\n' {
+			res = res[1:]
+		}
+	}
 	if n.trimLeft {
 		res = strings.TrimLeft(res, tokenSpaceChars)
 	}
